@@ -70,6 +70,9 @@ func Zip(data []byte) ([]byte, error) {
 	if err != nil {
 		return nil, err
 	}
-	dec := buf.Bytes()
+	// buf goes back to the pool when this function returns:
+	// the caller must get its own copy, not a view of pooled storage
+	dec := make([]byte, buf.Len())
+	copy(dec, buf.Bytes())
 	return dec, nil
 }
